@@ -247,6 +247,8 @@ func (pr *Program) accessorField(c *ssa.CallCommon) (*types.Var, ssa.Value) {
 var implCache = map[*types.Func][]*ssa.Function{}
 
 // implsOfMethod: receptor (non-mock) implementations of an interface method.
+func (pr *Program) ImplsOfMethod(m *types.Func) []*ssa.Function { return pr.implsOfMethod(m) }
+
 func (pr *Program) implsOfMethod(m *types.Func) []*ssa.Function {
 	if r, ok := implCache[m]; ok {
 		return r
@@ -276,7 +278,15 @@ func (pr *Program) implsOfMethod(m *types.Func) []*ssa.Function {
 					for i := 0; i < ms.Len(); i++ {
 						if ms.At(i).Obj().Name() == m.Name() {
 							if f := pr.SSA.FuncValue(ms.At(i).Obj().(*types.Func)); f != nil && f.Blocks != nil {
-								out = append(out, f)
+								dup := false
+								for _, o := range out {
+									if o == f {
+										dup = true
+									}
+								}
+								if !dup {
+									out = append(out, f)
+								}
 							}
 						}
 					}
